@@ -315,7 +315,7 @@ def parser_trace(ctx, aspects):
     ctx.samples.extend(s.get('samples', [])[:1])
 
 
-def sweeps(ctx, only, aspect, what):
+def sweeps(ctx, only, aspect, what, classify=None):
     """exhaustive run-compressed sweeps (Sweeps.tla / TraceSweep.tla)"""
     files = []
     for name in ['all']:
@@ -328,7 +328,7 @@ def sweeps(ctx, only, aspect, what):
             if prev and prev[0] == key and r['lo'] != prev[1] + 1 and not (prev[1] == 0xD7FF and r['lo'] == 0xE000):
                 raise ToolError(f'sweep {key}: runs are not contiguous at {r["lo"]}')
             prev = (key, r['hi'])
-        v = ctx.validate(f'sweep_{name}', 'TraceSweep', trace, aspect, what, timeout=3000)
+        v = ctx.validate(f'sweep_{name}', 'TraceSweep', trace, aspect, what, timeout=3000, classify=classify)
         v['events'] = s.get('elements', v['events'])
         v['validated'] = s.get('elements', 0) if not v['rejected'] else v['validated']
         v['distinct'] = s.get('elements', 0)
@@ -399,8 +399,16 @@ def nest_families(ctx):
 def c03(ctx):
     files = parser_trees(ctx, ['struct', 'num', 'str', 'hex', 'nest', 'surr', 'surropen'])
     r = nest_families(ctx)
+    # the nesting / length families are run in an optimised AND in an unoptimised build of the crate: the stack bound must
+    # not depend on the optimiser turning recursion into loops
+    os.environ['JSV_NEST_CHILD_DEBUG'] = vp.build_harness_debug()
     ctx.replay(files + [r['out']], ['C03.'])
     parser_trace(ctx, ['C03.'])
+    # every scalar raw in a string / key, after a backslash, in each hex-digit position of an escape, every \uXXXX: a run of
+    # elements on which the parser panics is a violation of totality (other deviations on these sweeps belong to C01 / C02)
+    sweeps(ctx, ['raw_str', 'raw_key', 'esc_ascii', 'esc_u', 'esc_u_key', 'esc_hexchar', 'esc_pair'], 'C03.sweep',
+           'the parser panics on a character / escape of this run (run-compressed exhaustive sweep)',
+           classify=lambda ev: 'C03.sweep' if ev.get('tag') == 'panic' else None)
     ctx.extra['stack_bytes'] = 256 * 1024
     ctx.notes.append('nesting families: outcomes affine in the depth, validated by TLC for depth 3..9 and extrapolated; the real parser '
                      'runs in a child process inside a thread with a 256 KiB stack (string and slice entry points, strict and flexible)')
@@ -655,6 +663,9 @@ def c09(ctx):
     r = canon_model(ctx)
     ctx.replay([r['out']], ['C09.'])
     canon_trace(ctx, {'number': 'C09.number', 'structure': 'C09.order', 'text': 'C09.text'})
+    # "strings are minimally escaped": the canonical text of a string (or of an object with one key) is its compact print
+    sweeps(ctx, ['print_str', 'print_key'], 'C09.escaping',
+           'the canonical (compact) text of a one-character string / key is not minimally escaped (run-compressed exhaustive sweep over every scalar)')
     ctx.extra['rule'] = ('S->I: every permutation (at every level) of 15 base I-JSON values with keys from the UTF-16 / code-point divergence region and '
                          'numbers from a TLC-certified table; I->S: generated I-JSON values; every distinct number carries a certificate checked by TLC '
                          'with exact integer arithmetic (nearest double, shortest and closest digits, Number::toString layout)')
@@ -665,7 +676,7 @@ def c10(ctx):
     ctx.replay([r['out']], ['C10.'])
     # "each number keeps its double value": the rendering must denote the nearest double of the source spelling (certificate
     # reasons roundtrip / sign / zero); shortest-digits and layout deviations belong to C09 only
-    canon_trace(ctx, {'number:roundtrip': 'C10.number', 'number:sign': 'C10.number', 'number:zero': 'C10.number', 'idempotence': 'C10.idempotent', 'invariance': 'C10.invariance', 'index': 'C10.index', 'queries': 'C10.queries',
+    canon_trace(ctx, {'panic': 'C10.panic', 'number:roundtrip': 'C10.number', 'number:sign': 'C10.number', 'number:zero': 'C10.number', 'idempotence': 'C10.idempotent', 'invariance': 'C10.invariance', 'index': 'C10.index', 'queries': 'C10.queries',
                       'structure': 'C10.structure'})
 
 
